@@ -13,7 +13,7 @@ import (
 // Line.Autofix() / Autofix.* / Apply / SaveAutofixChanges / plistLineSorter
 // on a file in a temporary directory.  Add-only; plain data in and out.
 
-type VerifFixOp struct {
+type VerifC03Op struct {
 	Kind      string // replaceafter replaceat above below delete custom-sort custom-chmod
 	Prefix    string
 	From, To  string
@@ -21,38 +21,38 @@ type VerifFixOp struct {
 	TextIndex int
 }
 
-type VerifFixEvent struct {
+type VerifC03Event struct {
 	Kind string // txn save sort chmod
 	Line int    // index of the logical line (txn)
 	Diag string // diagnostic format (txn); "" = fix.Silent()
-	Ops  []VerifFixOp
+	Ops  []VerifC03Op
 }
 
-type VerifLineInfo struct {
+type VerifC03Line struct {
 	Lineno int
 	Raws   []string
 	Text   string
 }
 
-type VerifFixResult struct {
-	Lines      []VerifLineInfo // as loaded
+type VerifC03Result struct {
+	Lines      []VerifC03Line // as loaded
 	Stdout     string
 	Stderr     string
 	Disk       string // content of the file afterwards
 	Mode       uint32
 	Entries    []string        // directory entries afterwards
-	Final      []VerifLineInfo // RawText of every raw line and Text afterwards
+	Final      []VerifC03Line // RawText of every raw line and Text afterwards
 	Panic      string
 	EventsDone int
 }
 
-var verifFixMu sync.Mutex
+var verifC03Mu sync.Mutex
 
 // VerifAutofixScript loads fileContent (as a makefile with continuation lines,
 // or as a PLIST) and runs the events.  basename is "Makefile" or "PLIST".
-func VerifAutofixScript(autofix, showAutofix bool, only []string, basename string, mode uint32, fileContent string, events []VerifFixEvent) (res VerifFixResult) {
-	verifFixMu.Lock()
-	defer verifFixMu.Unlock()
+func VerifAutofixScript(autofix, showAutofix bool, only []string, basename string, mode uint32, fileContent string, events []VerifC03Event) (res VerifC03Result) {
+	verifC03Mu.Lock()
+	defer verifC03Mu.Unlock()
 
 	dir, err := os.MkdirTemp("/var/tmp", "verif-fix-")
 	if err != nil {
@@ -89,7 +89,7 @@ func VerifAutofixScript(autofix, showAutofix bool, only []string, basename strin
 			lines = NewLines(filename, nil)
 		}
 		for _, l := range lines.Lines {
-			info := VerifLineInfo{Lineno: l.Location.lineno, Text: l.Text}
+			info := VerifC03Line{Lineno: l.Location.lineno, Text: l.Text}
 			for _, r := range l.raw {
 				info.Raws = append(info.Raws, r.orignl)
 			}
@@ -175,7 +175,7 @@ func VerifAutofixScript(autofix, showAutofix bool, only []string, basename strin
 	if lines != nil {
 		_ = VerifPanic(func() {
 			for _, l := range lines.Lines {
-				info := VerifLineInfo{Lineno: l.Location.lineno, Text: l.Text}
+				info := VerifC03Line{Lineno: l.Location.lineno, Text: l.Text}
 				for i := range l.raw {
 					info.Raws = append(info.Raws, l.RawText(i))
 				}
